@@ -212,6 +212,10 @@ def lanes(ctx):
     n2 = ln.check_signed_bit_test(c2, [P.fn("bit_test_bad"), P.fn("bit_test_good")])
     ctx.control("R23.signed-bit-test finds the control compares", n2 == 2, str(n2))
     _expect(ctx, "R23.signed-bit-test", c2, ["bit_test_bad"], ["bit_test_good"])
+    c3 = _sub()
+    n3 = ln.check_lane_counters(c3, [P.fn("lane_counter_bad"), P.fn("lane_counter_good")])
+    ctx.control("R23.lane-counter finds the control counters", n3 == 2, str(n3))
+    _expect(ctx, "R23.lane-counter", c3, ["lane_counter_bad"], ["lane_counter_good"])
 
 
 def atomic(ctx):
